@@ -252,16 +252,48 @@ def showl(l):
     return ",".join(map(str, l)) if l else "-"
 
 
+class _Timeout(Exception):
+    pass
+
+
+CALL_LIMIT_S = 20.0
+
+
+class time_limit:
+    """Bound one call of the real code (pure-Python loops): a changed loop that no longer terminates must become
+    a reported failure ("exc:Timeout"), not a hung check.  Uses SIGALRM, main thread of the (worker) process."""
+
+    def __init__(self, seconds=None):
+        self.seconds = CALL_LIMIT_S if seconds is None else seconds
+
+    def __enter__(self):
+        import signal
+
+        def _raise(signum, frame):
+            raise _Timeout()
+        self._old = signal.signal(signal.SIGALRM, _raise)
+        signal.setitimer(signal.ITIMER_REAL, self.seconds)
+
+    def __exit__(self, *a):
+        import signal
+        signal.setitimer(signal.ITIMER_REAL, 0)
+        signal.signal(signal.SIGALRM, self._old)
+        return False
+
+
 # ------------------------------------------------------------------------------------------------
 # real code on integer ids (`_find_lcas` takes its lookups as callables)
 
 def impl_lcas(h: Hist, c1, c2s, min_stamp=None):
     from dulwich.graph import _find_lcas
     try:
-        if min_stamp is None:
-            r = _find_lcas(h.P.__getitem__, c1, list(c2s), h.ts.__getitem__)
-        else:
-            r = _find_lcas(h.P.__getitem__, c1, list(c2s), h.ts.__getitem__, min_stamp=min_stamp)
+        with time_limit():
+            if min_stamp is None:
+                r = _find_lcas(h.P.__getitem__, c1, list(c2s), h.ts.__getitem__)
+            else:
+                r = _find_lcas(h.P.__getitem__, c1, list(c2s), h.ts.__getitem__, min_stamp=min_stamp)
+    except _Timeout:
+        return "exc:Timeout"
     except Exception as e:  # noqa: BLE001
         return "exc:" + type(e).__name__
     return r
@@ -307,11 +339,15 @@ def classify_independent(h: Hist, ids, got):
         if list(dict.fromkeys(got)) != exp:
             return f"survivors {got} are not in input order {exp}", None
         return None
+    # two known causes can combine: ids given twice are dropped altogether (whatever the clock), and an id that
+    # is reachable from another one survives when stamps do not strictly increase.  Anything else is unclassified.
     dup = {c for c in ids if ids.count(c) > 1}
-    if dup and gs < truth and (truth - gs) <= dup:
+    dropped_dups = (truth - gs) & dup
+    rest = gs | dropped_dups          # what the answer would be without the duplicate defect
+    if rest == truth:
         return f"ids given twice are dropped altogether: got {sorted(gs)}, graph answer {sorted(truth)}", CLS_IND_DUP
-    if gs > truth and gs <= set(ids) and h.nonmono_edge(h.reach(ids)):
-        return f"keeps {sorted(gs - truth)} although reachable from another id", CLS_IND
+    if rest > truth and gs <= set(ids) and h.nonmono_edge(h.reach(ids)):
+        return f"keeps {sorted(rest - truth)} although reachable from another id (graph answer {sorted(truth)})", CLS_IND
     return f"got {sorted(gs)}, graph answer {sorted(truth)}", None
 
 
@@ -388,7 +424,10 @@ class RealHist:
 
 def real_call(fn, *a, **kw):
     try:
-        return fn(*a, **kw)
+        with time_limit():
+            return fn(*a, **kw)
+    except _Timeout:
+        return "exc:Timeout"
     except Exception as e:  # noqa: BLE001
         return "exc:" + type(e).__name__
 
@@ -396,10 +435,13 @@ def real_call(fn, *a, **kw):
 def real_walk(rh: RealHist, o: dict):
     """list(repo.get_walker(...)) as model ids; `o` uses model ids"""
     try:
-        w = rh.repo.get_walker(include=rh.ids(o["incl"]), exclude=rh.ids(o["excl"]) or None,
-                               order="topo" if o["topo"] else "date", reverse=bool(o["rev"]),
-                               max_entries=o["max"], since=o["since"], until=o["until"])
-        return rh.back([e.commit.id for e in w])
+        with time_limit():
+            w = rh.repo.get_walker(include=rh.ids(o["incl"]), exclude=rh.ids(o["excl"]) or None,
+                                   order="topo" if o["topo"] else "date", reverse=bool(o["rev"]),
+                                   max_entries=o["max"], since=o["since"], until=o["until"])
+            return rh.back([e.commit.id for e in w])
+    except _Timeout:
+        return "exc:Timeout"
     except Exception as e:  # noqa: BLE001
         return "exc:" + type(e).__name__
 
@@ -993,7 +1035,10 @@ def _stream_topo(ctx):
     for (h, ent), mo in zip(cases, outs):
         cs = {c: C(c, list(h.P[c])) for c in range(h.n)}
         try:
-            got = [e.commit.id for e in _topo_reorder(iter([E(cs[c]) for c in ent]))]
+            with time_limit():
+                got = [e.commit.id for e in _topo_reorder(iter([E(cs[c]) for c in ent]))]
+        except _Timeout:
+            got = "exc:Timeout"
         except Exception as e:  # noqa: BLE001
             got = "exc:" + type(e).__name__
         ctx.count("topo", (h.enc(), tuple(ent)), True, f"n{min(h.n, 5)}{'+' if h.n > 5 else ''}")
